@@ -84,7 +84,10 @@ where
 		loop {
 			let event = match self.parser.next_event() {
 				Ok(event) => event,
-				Err(err) => return Some(Err(io::Error::new(io::ErrorKind::InvalidData, err))),
+				// The parser already reports its own errors as InvalidData. Errors
+				// from the underlying reader must keep their original kind, or
+				// format detection will mistake them for "not YAML".
+				Err(err) => return Some(Err(err)),
 			};
 
 			// Note that while we chunk on DOCUMENT_END events, we don't emit
